@@ -12,10 +12,11 @@ import (
 	"github.com/sanonone/kektordb/internal/zzverif/vkit"
 	"github.com/sanonone/kektordb/pkg/core/distance"
 	"github.com/sanonone/kektordb/pkg/core/hnsw"
+	"github.com/sanonone/kektordb/pkg/core/types"
 )
 
 // C15 (b) — engine level: memory-enabled indexes, searched through VSearchWithScores (score
-// breakdown) and VSearchGraph (fused score), reinforced through VReinforce.
+// breakdown), VSearchGraph (fused score) and VSearch (ids), reinforced through VReinforce.
 //
 // Oracle (only what the property states):
 //   - DecayFactor in [0,1]; Score == Similarity*DecayFactor; results ordered by Score;
@@ -24,8 +25,21 @@ import (
 //   - otherwise DecayFactor lies in [F(ageHi), F(ageLo)], F = the memory's model (per-memory
 //     override > index model > exponential; unknown names = exponential), age measured from the
 //     newer of _created_at / _last_accessed to a clock sample taken before / after the call;
+//   - where the half-life is not a stated quantity (global half-life <= 0 "defaults to a standard
+//     value", negative layer half-life) only the generic laws: range, product, ordering, "never
+//     increases as the memory ages" between two memories of one call, step model in {0,1};
 //   - VReinforce: _access_count + 1 exactly, _last_accessed inside the call's clock bracket;
-//   - twins (same vector, same metadata): the reinforced one never scores below the other.
+//   - twins (same vector, same metadata): the reinforced one never scores below the other;
+//   - hybrid (text + vector) search: two memories with the same vector and the same text have the
+//     same pre-decay relevance, so their scores differ by the ratio of their decay factors only.
+//
+// Workload dimensions (the property's quantifier): memories enter through VAdd, VAddBatch and
+// VImport(+Commit); _created_at / _last_accessed / _access_count are supplied in every Go number
+// type (and json.Number); _last_accessed may be supplied (a reinforcement that happened in the
+// past / a stamp older than the creation / a skewed clock); half-lives from 1 ns to the largest
+// Duration and negative ones; parameters changed after creation through VSetMetadata; searches
+// with k below the number of memories, with a boolean filter, hybrid with any alpha, through the
+// ids-only VSearch; restart after nothing / SaveSnapshot / RewriteAOF; VCompress.
 
 type c15Cfg struct {
 	ptr     bool // a *MemoryConfig is passed to VCreate at all
@@ -33,6 +47,7 @@ type c15Cfg struct {
 	model   string
 	globalH time.Duration
 	layers  map[string]hnsw.LayerConfig
+	lang    string // text language of the index ("" = no full-text index, hybrid search falls back to vector-only)
 }
 
 func (c c15Cfg) memCfg() *hnsw.MemoryConfig {
@@ -48,17 +63,21 @@ func (c c15Cfg) String() string {
 		ls = append(ls, fmt.Sprintf("%s:%v/pinned=%v", k, time.Duration(v.DecayHalfLife), v.PinnedByDefault))
 	}
 	sort.Strings(ls)
-	return fmt.Sprintf("{cfg=%v enabled=%v model=%q half_life=%v layers=[%s]}", c.ptr, c.enabled, c.model, c.globalH, strings.Join(ls, " "))
+	return fmt.Sprintf("{cfg=%v enabled=%v model=%q half_life=%v layers=[%s] text=%q}", c.ptr, c.enabled, c.model, c.globalH, strings.Join(ls, " "), c.lang)
 }
 
 // halfLife resolves the half-life (seconds) that applies to a memory of the given layer.
-// kind: "layer0" (layer configured without decay), "layer", "global", "global-default"
-// (global half-life 0: "defaults to a standard value (e.g. 7 days)" — not a stated law, so the
-// oracle demands only the generic laws there).
+// kind: "layer0" (layer configured without decay), "layer", "global", and two kinds for which no
+// half-life is stated: "global-default" (global half-life <= 0: "defaults to a standard value
+// (e.g. 7 days)") and "layer-negative" (a negative layer half-life) — the oracle demands only
+// the generic laws there.
 func (c c15Cfg) halfLife(layer string) (float64, string) {
 	if lc, ok := c.layers[layer]; ok {
 		if lc.DecayHalfLife == 0 {
 			return 0, "layer0"
+		}
+		if lc.DecayHalfLife < 0 {
+			return 0, "layer-negative"
 		}
 		return time.Duration(lc.DecayHalfLife).Seconds(), "layer"
 	}
@@ -77,20 +96,28 @@ type c15Mem struct {
 	overrideSet bool
 	override    string
 	countVal    any
+	laVal       any // supplied _last_accessed
 	layerSet    bool
 	layerVal    string
+	content     string // text field (hybrid search)
+	grp         string // field for boolean filters
+	entry       string // add | batch | import
 	// oracle state
-	tsClass              string // past | now | future | injected
+	tsClass              string // past | ancient | now | future | injected
 	createdLo, createdHi float64
+	createdForm          string
 	pinned               bool
 	pinnedForm           string
 	layer                string
 	count                float64
-	countForm            string // none | float | int
+	countForm            string // none | <number type>
 	lastAccessed         float64
+	laKind               string // "" | older | between | future | reinforced
 	reinforced           int
-	twin                 int // index of the twin memory, -1 if none
+	changed              []string // parameters changed after creation (VSetMetadata)
+	twin                 int      // index of the twin memory, -1 if none
 	twinLead             bool
+	cousin               int // index of a memory with the same vector and text but its own decay parameters, -1 if none
 }
 
 func (m *c15Mem) meta() map[string]any {
@@ -110,14 +137,23 @@ func (m *c15Mem) meta() map[string]any {
 	if m.countVal != nil {
 		md["_access_count"] = m.countVal
 	}
+	if m.laVal != nil {
+		md["_last_accessed"] = m.laVal
+	}
 	if m.layerSet {
 		md["memory_layer"] = m.layerVal
+	}
+	if m.content != "" {
+		md["content"] = m.content
+	}
+	if m.grp != "" {
+		md["grp"] = m.grp
 	}
 	return md
 }
 
 func (m *c15Mem) describe() string {
-	return fmt.Sprintf("%s meta=%s ts=%s pinned=%v(%s) layer=%s count=%v(%s) last_accessed=%v reinforced=%d twin=%d", m.id, c15JSON(m.meta()), m.tsClass, m.pinned, m.pinnedForm, m.layer, m.count, m.countForm, m.lastAccessed, m.reinforced, m.twin)
+	return fmt.Sprintf("%s via=%s meta=%s ts=%s(%s) created=[%v,%v] pinned=%v(%s) layer=%s count=%v(%s) last_accessed=%v(%s) reinforced=%d changed=%v twin=%d cousin=%d", m.id, m.entry, c15JSON(m.meta()), m.tsClass, m.createdForm, m.createdLo, m.createdHi, m.pinned, m.pinnedForm, m.layer, m.count, m.countForm, m.lastAccessed, m.laKind, m.reinforced, m.changed, m.twin, m.cousin)
 }
 
 func c15JSON(v any) string {
@@ -151,6 +187,64 @@ func c15Num(v any) (float64, bool) {
 	return 0, false
 }
 
+// c15NumForm renders the non-negative integer v in one of the number types a metadata map can
+// carry through the embedded API (quantifier: "metadata number types"). den is the number the
+// value denotes and slack its uncertainty: a float32 holds a timestamp only to +-64 s, and its
+// JSON text (log, snapshot) is the shortest decimal that reads back as the same float32 — any
+// number within a float32 ulp. Every other form is exact.
+func c15NumForm(r *vkit.Rand, v int64, allowF32, allowJSONNumber bool) (val any, den, slack float64, form string) {
+	forms := []string{"float64", "float64", "int", "int64", "uint", "uint64"}
+	if v <= math.MaxInt32 {
+		forms = append(forms, "int32")
+	}
+	if v <= math.MaxUint32 {
+		forms = append(forms, "uint32")
+	}
+	if v <= 127 {
+		forms = append(forms, "int8", "uint8", "int16", "uint16", "float32")
+	} else if allowF32 {
+		forms = append(forms, "float32")
+	}
+	if allowJSONNumber {
+		forms = append(forms, "json.Number")
+	}
+	form = vkit.Pick(r, forms)
+	den = float64(v)
+	switch form {
+	case "float64":
+		val = float64(v)
+	case "int":
+		val = int(v)
+	case "int64":
+		val = v
+	case "uint":
+		val = uint(v)
+	case "uint64":
+		val = uint64(v)
+	case "int32":
+		val = int32(v)
+	case "uint32":
+		val = uint32(v)
+	case "int8":
+		val = int8(v)
+	case "uint8":
+		val = uint8(v)
+	case "int16":
+		val = int16(v)
+	case "uint16":
+		val = uint16(v)
+	case "float32":
+		f := float32(v)
+		val, den = f, float64(f)
+		if v > 1<<24 {
+			slack = float64(math.Nextafter32(f, float32(math.Inf(1)))) - float64(f)
+		}
+	case "json.Number":
+		val = json.Number(fmt.Sprintf("%d", v))
+	}
+	return val, den, slack, form
+}
+
 func c15EffModel(cfg c15Cfg, m *c15Mem) string {
 	model := cfg.model
 	if model == "" {
@@ -171,38 +265,64 @@ func c15ModelClass(model string) string {
 	return "unknown"
 }
 
+// ref returns the bracket of the memory's reference time: the newer of created / last accessed.
+func (m *c15Mem) ref() (lo, hi float64) {
+	lo, hi = m.createdLo, m.createdHi
+	if m.lastAccessed > lo {
+		lo = m.lastAccessed
+	}
+	if m.lastAccessed > hi {
+		hi = m.lastAccessed
+	}
+	return lo, hi
+}
+
 // c15Expect returns the bracket of admissible decay factors of memory m for a search whose
 // clock samples (unix seconds) were s0 before and s1 after the call.
 func c15Expect(cfg c15Cfg, m *c15Mem, s0, s1 int64) (lo, hi float64, class string) {
 	if !cfg.enabled {
-		return 1, 1, "disabled"
+		return 1, 1, "disabled" // "equals 1 ... when decay is disabled"
 	}
 	if m.pinned {
-		return 1, 1, "pinned-" + m.pinnedForm
+		return 1, 1, "pinned-" + m.pinnedForm // "equals 1 for pinned memories"
 	}
 	h, kind := cfg.halfLife(m.layer)
-	switch kind {
-	case "layer0":
-		return 1, 1, "layer0"
-	case "global-default":
-		return 0, 1, "global-default"
+	if kind == "layer0" {
+		return 1, 1, "layer0" // "for layers configured without decay"
 	}
-	refLo, refHi := m.createdLo, m.createdHi
-	if m.lastAccessed > refLo {
-		refLo = m.lastAccessed
-	}
-	if m.lastAccessed > refHi {
-		refHi = m.lastAccessed
-	}
+	refLo, refHi := m.ref()
 	ageLo, ageHi := float64(s0)-refHi, float64(s1)-refLo
+	if ageHi <= 0 { // "for timestamps not in the past"
+		// Labels only (the bracket is [1,1] in every case). A label must not depend on whether
+		// the clock ticked between two calls, or the evidence would not be a function of the seed:
+		// a memory reinforced / stamped in this very second gets the label it has a second later.
+		switch {
+		case m.laKind == "reinforced" && m.lastAccessed >= m.createdHi:
+			return 1, 1, "reinforced-now"
+		case m.lastAccessed > m.createdHi:
+			return 1, 1, "nonpast-last-accessed"
+		case (kind == "global-default" || kind == "layer-negative") && (m.tsClass == "now" || m.tsClass == "injected"):
+			return 1, 1, kind
+		}
+		return 1, 1, "nonpast-" + m.tsClass
+	}
 	model := c15EffModel(cfg, m)
-	hi = c15RefGuarded(model, ageLo, h, int(m.count))
-	lo = c15RefGuarded(model, ageHi, h, int(m.count))
+	switch kind {
+	case "global-default", "layer-negative":
+		return 0, 1, kind
+	}
+	if m.count < 0 && c15ModelClass(model) == "ebbinghaus" {
+		// the property says nothing about a negative number of accesses
+		return 0, 1, "negative-count"
+	}
+	// a fractional count lies between two whole numbers of accesses; Ebbinghaus is
+	// non-decreasing in the count, every other model ignores it
+	cLo, cHi := math.Floor(m.count), math.Ceil(m.count)
+	hi = c15RefGuarded(model, ageLo, h, int(cHi))
+	lo = c15RefGuarded(model, ageHi, h, int(cLo))
 	switch {
 	case m.lastAccessed > 0 && m.lastAccessed >= m.createdHi && ageLo < 60:
 		class = "reinforced-now" // reference time moved to the reinforcement
-	case ageHi <= 0:
-		class = "nonpast-" + m.tsClass
 	case ageLo < 60:
 		class = "just-now"
 	default:
@@ -222,18 +342,19 @@ func c15Within(f, lo, hi float64) bool {
 const c15SimNoise = 1e-6
 
 type c15Run struct {
-	ctx     *vkit.Ctx
-	cs      *vkit.Case
-	e       *Engine
-	opts    Options
-	idx     string
-	cfg     c15Cfg
-	mems    []*c15Mem
-	byID    map[string]*c15Mem
-	d17     bool
-	classes map[string]bool
-	sawDec  bool
-	sawOne  bool
+	ctx      *vkit.Ctx
+	cs       *vkit.Case
+	e        *Engine
+	opts     Options
+	idx      string
+	cfg      c15Cfg
+	mems     []*c15Mem
+	byID     map[string]*c15Mem
+	d17      bool
+	bgRefine bool // VImportCommit started a background graph refinement: vector result sets of two calls may differ
+	classes  map[string]bool
+	sawDec   bool
+	sawOne   bool
 }
 
 func c15Options(dir string) Options {
@@ -252,6 +373,7 @@ func (x *c15Run) open() {
 		x.cs.Fail("engine.Open failed: %v", err)
 	}
 	x.e = e
+	x.bgRefine = false
 }
 
 func (x *c15Run) close() {
@@ -280,8 +402,15 @@ func (x *c15Run) note(api, class string) {
 	x.classes[class] = true
 	if strings.HasPrefix(class, "decay-") {
 		x.sawDec = true
-	} else if class != "global-default" && class != "just-now" && class != "reinforced-now" {
-		x.sawOne = true
+	} else {
+		switch class {
+		case "global-default", "layer-negative", "negative-count", "reinforced-now":
+		case "just-now", "nonpast-now", "nonpast-injected":
+			// a memory stamped "now" is 0 s or 1 s old at search time, depending on the clock:
+			// neither form may decide whether the case counts (evidence is a function of the seed)
+		default:
+			x.sawOne = true
+		}
 	}
 }
 
@@ -307,13 +436,62 @@ func c15Vec(r *vkit.Rand, dim int) []float32 {
 	return v
 }
 
-// searchRound runs both search APIs with one query and checks every law on the results.
-func (x *c15Run) searchRound(tag string) {
-	cs, r := x.cs, x.cs.R
-	q := x.query()
-	k := len(x.mems) + r.Range(0, 3)
+// c15Obs is one decay factor observed for a memory whose half-life is not a stated quantity.
+type c15Obs struct {
+	m *c15Mem
+	f float64
+}
 
-	// ---- VSearchWithScores ----
+// checkAgeOrder: "never increases as the memory ages" between two memories of ONE call that
+// share every decay parameter (same layer, hence the same half-life whatever it is, same model,
+// same number of accesses) and differ in their reference time only: the older one must not have
+// the larger factor. Used where the half-life itself is not stated (global-default /
+// layer-negative); everywhere else the model bracket implies it. The product reads the clock once
+// per result, so the older memory must be older by more than the call's clock bracket. tol: 0 for
+// factors reported by the call, the similarity noise for factors derived from scores.
+func (x *c15Run) checkAgeOrder(api string, obs []c15Obs, s0, s1 int64, tol float64) {
+	for i, a := range obs {
+		for _, b := range obs[i+1:] {
+			_, ka := x.cfg.halfLife(a.m.layer)
+			_, kb := x.cfg.halfLife(b.m.layer)
+			if ka != kb || (ka == "layer-negative" && a.m.layer != b.m.layer) {
+				continue // global-default: one global half-life for every layer outside the table
+			}
+			ma, mb := c15EffModel(x.cfg, a.m), c15EffModel(x.cfg, b.m)
+			if c15ModelClass(ma) != c15ModelClass(mb) {
+				continue
+			}
+			if c15ModelClass(ma) == "ebbinghaus" && a.m.count != b.m.count {
+				continue
+			}
+			old, yng := a, b
+			alo, _ := a.m.ref()
+			blo, _ := b.m.ref()
+			if blo < alo {
+				old, yng = b, a
+			}
+			_, ohi := old.m.ref()
+			ylo, _ := yng.m.ref()
+			if !(ohi+float64(s1-s0)+2 <= ylo) {
+				continue
+			}
+			if old.f > yng.f+tol+1e-12*yng.f {
+				x.cs.Fail("%s: decay factor increases with age: %s (reference time <= %v) has factor %v, the younger %s (reference time >= %v) has %v, same model %s and half-life (%s); %s | %s; %s", api, old.m.id, ohi, old.f, yng.m.id, ylo, yng.f, c15ModelClass(ma), ka, old.m.describe(), yng.m.describe(), x.cfg)
+			}
+			x.ctx.Count(api+".age_order_pairs_"+ka, 1)
+		}
+	}
+}
+
+type c15WS struct {
+	sim, factor, score map[string]float64
+	pos                map[string]int
+	s0, s1             int64 // clock samples around the call
+}
+
+// wsCall runs VSearchWithScores and checks every law on the results.
+func (x *c15Run) wsCall(tag string, q []float32, k int) c15WS {
+	cs := x.cs
 	cs.Op("%s: VSearchWithScores(%s, %v, k=%d)", tag, x.idx, q, k)
 	s0 := time.Now().Unix()
 	res, err := x.e.VSearchWithScores(x.idx, q, k)
@@ -321,10 +499,8 @@ func (x *c15Run) searchRound(tag string) {
 	if err != nil {
 		cs.Fail("VSearchWithScores failed: %v", err)
 	}
-	sim := map[string]float64{}
-	wsFactor := map[string]float64{}
-	wsScore := map[string]float64{}
-	wsPos := map[string]int{}
+	w := c15WS{sim: map[string]float64{}, factor: map[string]float64{}, score: map[string]float64{}, pos: map[string]int{}, s0: s0, s1: s1}
+	var unstated []c15Obs
 	for i, it := range res {
 		m := x.byID[it.ID]
 		if m == nil {
@@ -344,6 +520,13 @@ func (x *c15Run) searchRound(tag string) {
 			if !c15Within(f, lo, hi) {
 				cs.Fail("VSearchWithScores: decay factor of %s is %v, want [%v, %v] (%s, clock %d..%d); %s; %s", it.ID, f, lo, hi, class, s0, s1, m.describe(), x.cfg)
 			}
+			if class == "global-default" || class == "layer-negative" {
+				// "step drops to 0 at the half-life": whatever the half-life, a step factor is 0 or 1
+				if c15ModelClass(c15EffModel(x.cfg, m)) == "step" && f != 0 && f != 1 {
+					cs.Fail("VSearchWithScores: step-model decay factor of %s is %v, neither 0 nor 1; %s; %s", it.ID, f, m.describe(), x.cfg)
+				}
+				unstated = append(unstated, c15Obs{m, f})
+			}
 			x.note("ws", class)
 		}
 		if d := math.Abs(it.Score - s*f); !(d <= 1e-12*math.Abs(it.Score)) && d != 0 {
@@ -352,26 +535,30 @@ func (x *c15Run) searchRound(tag string) {
 		if i > 0 && !(res[i-1].Score >= it.Score) {
 			cs.Fail("VSearchWithScores: results not ordered by score: #%d %s=%v before #%d %s=%v", i-1, res[i-1].ID, res[i-1].Score, i, it.ID, it.Score)
 		}
-		if _, dup := sim[it.ID]; !dup {
-			sim[it.ID], wsFactor[it.ID], wsScore[it.ID], wsPos[it.ID] = s, f, it.Score, i
+		if _, dup := w.sim[it.ID]; !dup {
+			w.sim[it.ID], w.factor[it.ID], w.score[it.ID], w.pos[it.ID] = s, f, it.Score, i
 		}
 	}
+	x.checkAgeOrder("ws", unstated, s0, s1, 0)
 	x.ctx.Count("ws.calls", 1)
 	x.ctx.Count("ws.results", int64(len(res)))
-
-	// ---- VSearchGraph (fused path) ----
-	ef := vkit.Pick(r, []int{0, 50, 100})
-	cs.Op("%s: VSearchGraph(%s, %v, k=%d, ef=%d)", tag, x.idx, q, k, ef)
-	g0 := time.Now().Unix()
-	gres, err := x.e.VSearchGraph(x.idx, q, k, "", "", ef, 1.0, nil, false, nil)
-	g1 := time.Now().Unix()
-	if err != nil {
-		cs.Fail("VSearchGraph failed: %v", err)
+	if k < len(x.mems) {
+		x.ctx.Count("ws.calls_k_below_n", 1)
 	}
+	return w
+}
+
+// checkFused checks a result list of the fused path whose pre-decay relevance IS the vector
+// similarity (no text part, or alpha = 1): ordering, and score = similarity x a factor inside the
+// memory's bracket. only (if not nil) restricts the per-result check to ids for which the vector
+// part is known to be present (see hybrid()).
+func (x *c15Run) checkFused(api string, gres []GraphSearchResult, g0, g1 int64, sim map[string]float64, only map[string]float64) map[string]float64 {
+	cs := x.cs
 	gScore := map[string]float64{}
+	var unstated []c15Obs
 	for i, it := range gres {
 		if i > 0 && !(gres[i-1].Score >= it.Score) {
-			cs.Fail("VSearchGraph: results not ordered by score: #%d %s=%v before #%d %s=%v", i-1, gres[i-1].ID, gres[i-1].Score, i, it.ID, it.Score)
+			cs.Fail("%s: results not ordered by score: #%d %s=%v before #%d %s=%v", api, i-1, gres[i-1].ID, gres[i-1].Score, i, it.ID, it.Score)
 		}
 		m := x.byID[it.ID]
 		if m == nil {
@@ -380,33 +567,132 @@ func (x *c15Run) searchRound(tag string) {
 		if _, dup := gScore[it.ID]; !dup {
 			gScore[it.ID] = it.Score
 		}
+		if only != nil {
+			if _, ok := only[it.ID]; !ok {
+				x.ctx.Count(api+".no_vector_reference", 1)
+				continue
+			}
+		}
 		s, ok := sim[it.ID]
 		if !ok || !(s > 0) || math.IsInf(s, 0) {
-			x.ctx.Count("graph.no_similarity_reference", 1)
+			x.ctx.Count(api+".no_similarity_reference", 1)
 			continue
 		}
 		f := it.Score / s
 		lo, hi, class := c15Expect(x.cfg, m, g0, g1)
 		if !(f >= 0 && f <= 1+c15SimNoise) {
-			cs.Fail("VSearchGraph: score of %s is %v with similarity %v: implied decay factor %v outside [0,1]; %s; %s", it.ID, it.Score, s, f, m.describe(), x.cfg)
+			cs.Fail("%s: score of %s is %v with similarity %v: implied decay factor %v outside [0,1]; %s; %s", api, it.ID, it.Score, s, f, m.describe(), x.cfg)
 		}
 		if !x.cfg.enabled && it.Score != s {
-			x.ctx.Count("graph.similarity_differs_from_ws_breakdown", 1)
+			x.ctx.Count(api+".similarity_differs_from_ws_breakdown", 1)
 		}
 		if !(f >= lo-c15SimNoise && f <= hi+c15SimNoise) {
-			cs.Fail("VSearchGraph: score of %s is %v = similarity %v * %v, want a decay factor in [%v, %v] (%s, clock %d..%d); %s; %s", it.ID, it.Score, s, f, lo, hi, class, g0, g1, m.describe(), x.cfg)
+			cs.Fail("%s: score of %s is %v = similarity %v * %v, want a decay factor in [%v, %v] (%s, clock %d..%d); %s; %s", api, it.ID, it.Score, s, f, lo, hi, class, g0, g1, m.describe(), x.cfg)
 		}
-		x.note("graph", class)
+		if class == "global-default" || class == "layer-negative" {
+			if c15ModelClass(c15EffModel(x.cfg, m)) == "step" && !(f <= c15SimNoise || f >= 1-c15SimNoise) {
+				cs.Fail("%s: step-model decay factor of %s is %v (score %v / similarity %v), neither 0 nor 1; %s; %s", api, it.ID, f, it.Score, s, m.describe(), x.cfg)
+			}
+			unstated = append(unstated, c15Obs{m, f})
+		}
+		x.note(api, class)
 	}
-	x.ctx.Count("graph.calls", 1)
+	x.checkAgeOrder(api, unstated, g0, g1, 2*c15SimNoise)
+	x.ctx.Count(api+".calls", 1)
+	return gScore
+}
+
+var c15Words = []string{"alpha", "beta", "gamma", "delta", "omega", "kappa"}
+
+// searchRound runs the search APIs with one query and checks every law on the results.
+func (x *c15Run) searchRound(tag string) {
+	cs, r := x.cs, x.cs.R
+	q := x.query()
+	n := len(x.mems)
+
+	// ---- VSearchWithScores: k >= n (similarity reference for the fused path), then k < n ----
+	w := x.wsCall(tag, q, n+r.Range(0, 3))
+	sim := w.sim
+	if r.Chance(0.3) {
+		// k below the number of memories: the list is cut; every law holds on what is returned
+		x.wsCall(tag+"/small-k", q, r.Range(1, n))
+	}
+
+	// ---- VSearchGraph (fused path) ----
+	ef := vkit.Pick(r, []int{0, 50, 100})
+	k := n + r.Range(0, 3)
+	if r.Chance(0.35) {
+		k = r.Range(1, n)
+	}
+	cs.Op("%s: VSearchGraph(%s, %v, k=%d, ef=%d)", tag, x.idx, q, k, ef)
+	g0 := time.Now().Unix()
+	gres, err := x.e.VSearchGraph(x.idx, q, k, "", "", ef, 1.0, nil, false, nil)
+	g1 := time.Now().Unix()
+	if err != nil {
+		cs.Fail("VSearchGraph failed: %v", err)
+	}
+	gScore := x.checkFused("graph", gres, g0, g1, sim, nil)
+	if k < n {
+		x.ctx.Count("graph.calls_k_below_n", 1)
+	}
+
+	// ---- VSearch (ids only): "results are ordered by it" — the id list must be compatible with
+	// score = similarity x decay for every adjacent pair, whatever the clock did inside the call.
+	if r.Chance(0.5) {
+		cs.Op("%s: VSearch(%s, %v, k=%d, ef=%d)", tag, x.idx, q, k, ef)
+		v0 := time.Now().Unix()
+		ids, err := x.e.VSearch(x.idx, q, k, "", "", ef, 1.0, nil)
+		v1 := time.Now().Unix()
+		if err != nil {
+			cs.Fail("VSearch failed: %v", err)
+		}
+		for i := 1; i < len(ids); i++ {
+			a, b := x.byID[ids[i-1]], x.byID[ids[i]]
+			if a == nil || b == nil {
+				continue
+			}
+			sa, oka := sim[a.id]
+			sb, okb := sim[b.id]
+			if !oka || !okb {
+				continue
+			}
+			_, ahi, _ := c15Expect(x.cfg, a, v0, v1)
+			blo, _, _ := c15Expect(x.cfg, b, v0, v1)
+			if !(sa*(ahi+c15SimNoise)*(1+2*c15SimNoise)+1e-300 >= sb*blo) {
+				cs.Fail("VSearch: ids not ordered by score: #%d %s (similarity %v, decay factor <= %v) before #%d %s (similarity %v, decay factor >= %v); %s | %s; %s", i-1, a.id, sa, ahi, i, b.id, sb, blo, a.describe(), b.describe(), x.cfg)
+			}
+			if blo > 0 {
+				x.ctx.Count("vsearch.pairs_decided", 1)
+			}
+		}
+		x.ctx.Count("vsearch.calls", 1)
+	}
+
+	// ---- boolean filter: the pre-decay relevance is still the vector similarity ----
+	if r.Chance(0.3) {
+		filter := "grp='" + vkit.Pick(r, []string{"a", "b"}) + "'"
+		cs.Op("%s: VSearchGraph(%s, %v, k=%d, filter=%s, ef=%d)", tag, x.idx, q, k, filter, ef)
+		f0 := time.Now().Unix()
+		fres, err := x.e.VSearchGraph(x.idx, q, k, filter, "", ef, 1.0, nil, false, nil)
+		f1 := time.Now().Unix()
+		if err != nil {
+			cs.Fail("VSearchGraph with filter %s failed: %v", filter, err)
+		}
+		x.checkFused("filtered", fres, f0, f1, sim, nil)
+	}
+
+	// ---- hybrid (text + vector) ----
+	if x.cfg.lang != "" && r.Chance(0.6) {
+		x.hybrid(tag, q, k, ef, sim, gScore)
+	}
 
 	// ---- twins: the reinforced one never ranks below the other ----
-	for ai, a := range x.mems {
+	wsScore, wsFactor, wsPos := w.score, w.factor, w.pos
+	for _, a := range x.mems {
 		if a.twin < 0 || !a.twinLead || a.reinforced == 0 {
 			continue
 		}
 		b := x.mems[a.twin]
-		_ = ai
 		if fa, ok := wsScore[a.id]; ok {
 			if fb, ok := wsScore[b.id]; ok {
 				if x.d17Affected(a) {
@@ -417,7 +703,7 @@ func (x *c15Run) searchRound(tag string) {
 					// defect also strips a pinned twin pair of its pin in this API.)
 					bb := *b
 					bb.pinned = false
-					blo, _, _ := c15Expect(x.cfg, &bb, s0, s1)
+					blo, _, _ := c15Expect(x.cfg, &bb, w.s0, w.s1)
 					if !(wsFactor[a.id] >= blo-1e-9) {
 						cs.Fail("VSearchWithScores: reinforced twin %s has decay %v, below the unreinforced twin's bracket floor %v; %s | %s; %s", a.id, wsFactor[a.id], blo, a.describe(), b.describe(), x.cfg)
 					}
@@ -455,16 +741,110 @@ func (x *c15Run) searchRound(tag string) {
 	}
 }
 
+// hybrid runs VSearchGraph with a text query next to the vector (the MCP recall / proxy form).
+// plain = scores of the vector-only call with the same (query, k, ef): an id it returned is in
+// the vector part of this call too (same deterministic graph search), unless a background graph
+// refinement is running.
+//
+// The pre-decay relevance alpha*similarity + (1-alpha)*text is not modelled. What the property
+// states is score = relevance x decay; so
+//   - alpha = 1: relevance = similarity, the exact per-result law applies;
+//   - any alpha: two memories with the same vector and the same text have the same relevance, so
+//     score(a) * lo(b) <= score(b) * hi(a) for their decay brackets (and symmetrically) —
+//     this decides pinned vs unpinned, reinforced vs not, model vs model under hybrid search.
+func (x *c15Run) hybrid(tag string, q []float32, k, ef int, sim, plain map[string]float64) {
+	cs, r := x.cs, x.cs.R
+	text := vkit.Pick(r, c15Words)
+	alpha := vkit.Pick(r, []float64{0, 0.3, 0.5, 0.5, 1, 1, 1.7})
+	filter := ""
+	if r.Chance(0.25) {
+		filter = "grp='" + vkit.Pick(r, []string{"a", "b"}) + "'"
+	}
+	cs.Op("%s: VSearchGraph(%s, %v, k=%d, filter=%q, text=%q, ef=%d, alpha=%v)", tag, x.idx, q, k, filter, text, ef, alpha)
+	h0 := time.Now().Unix()
+	hres, err := x.e.VSearchGraph(x.idx, q, k, filter, text, ef, alpha, nil, false, nil)
+	h1 := time.Now().Unix()
+	if err != nil {
+		cs.Fail("hybrid VSearchGraph failed: %v", err)
+	}
+	x.ctx.Count(fmt.Sprintf("hybrid.calls_alpha_%v", alpha), 1)
+	if x.bgRefine || filter != "" {
+		// the vector part of this call is not known to equal the plain call's (a filter changes
+		// the graph walk): only the ordering is judged
+		for i := 1; i < len(hres); i++ {
+			if !(hres[i-1].Score >= hres[i].Score) {
+				cs.Fail("hybrid: results not ordered by score: #%d %s=%v before #%d %s=%v", i-1, hres[i-1].ID, hres[i-1].Score, i, hres[i].ID, hres[i].Score)
+			}
+		}
+		x.ctx.Count("hybrid.calls_order_only", 1)
+		return
+	}
+	var hScore map[string]float64
+	if alpha == 1 {
+		hScore = x.checkFused("hybrid1", hres, h0, h1, sim, plain)
+	} else {
+		hScore = map[string]float64{}
+		for i, it := range hres {
+			if i > 0 && !(hres[i-1].Score >= it.Score) {
+				cs.Fail("hybrid: results not ordered by score: #%d %s=%v before #%d %s=%v", i-1, hres[i-1].ID, hres[i-1].Score, i, it.ID, it.Score)
+			}
+			if !(it.Score >= 0) || math.IsInf(it.Score, 0) {
+				cs.Fail("hybrid: score of %s is %v", it.ID, it.Score)
+			}
+			if _, dup := hScore[it.ID]; !dup {
+				hScore[it.ID] = it.Score
+			}
+		}
+	}
+	for ai, a := range x.mems {
+		bi := -1
+		switch {
+		case a.twin >= 0 && a.twinLead:
+			bi = a.twin
+		case a.cousin > ai:
+			bi = a.cousin
+		}
+		if bi < 0 {
+			continue
+		}
+		b := x.mems[bi]
+		sa, oka := hScore[a.id]
+		sb, okb := hScore[b.id]
+		_, pa := plain[a.id]
+		_, pb := plain[b.id]
+		if !oka || !okb || !pa || !pb {
+			continue
+		}
+		alo, ahi, ca := c15Expect(x.cfg, a, h0, h1)
+		blo, bhi, cb := c15Expect(x.cfg, b, h0, h1)
+		const slack = 1 + 4*c15SimNoise
+		if !(sa*blo <= sb*ahi*slack+1e-300) || !(sb*alo <= sa*bhi*slack+1e-300) {
+			cs.Fail("hybrid (text=%q alpha=%v): %s scores %v and %s scores %v; same vector and same text, so the scores must differ by the ratio of the decay factors, which lie in [%v,%v] (%s) and [%v,%v] (%s) (clock %d..%d); %s | %s; %s", text, alpha, a.id, sa, b.id, sb, alo, ahi, ca, blo, bhi, cb, h0, h1, a.describe(), b.describe(), x.cfg)
+		}
+		x.ctx.Count("hybrid.pairs_checked", 1)
+		if sa > 0 && sb > 0 && (ahi < blo || bhi < alo) {
+			x.ctx.Count("hybrid.pairs_with_disjoint_brackets", 1)
+		}
+	}
+}
+
+type c15Before struct {
+	count, la float64
+	hasLA     bool
+}
+
 // reinforce calls VReinforce(ids) and checks the read-modify-write law on every id.
 func (x *c15Run) reinforce(ids []string) {
 	cs := x.cs
-	others := map[string]float64{}
+	others := map[string]c15Before{}
 	for _, m := range x.mems {
 		if m.twin >= 0 && !m.twinLead {
 			vd, err := x.e.VGet(x.idx, m.id)
 			if err == nil {
-				c, _ := c15Num(vd.Metadata["_access_count"])
-				others[m.id] = c
+				var b c15Before
+				b.count, _ = c15Num(vd.Metadata["_access_count"])
+				b.la, b.hasLA = c15Num(vd.Metadata["_last_accessed"])
+				others[m.id] = b
 			}
 		}
 	}
@@ -493,32 +873,96 @@ func (x *c15Run) reinforce(ids []string) {
 		}
 		m.count++
 		m.lastAccessed = la
+		m.laKind = "reinforced"
 		m.reinforced++
 		x.ctx.Count("reinforce.ids", 1)
 		x.ctx.Count("reinforce.from_count_"+m.countForm, 1)
 	}
 	// the unreinforced twins stay unreinforced
-	for id, c := range others {
+	for id, b := range others {
 		vd, err := x.e.VGet(x.idx, id)
 		if err != nil {
 			continue
 		}
 		now, _ := c15Num(vd.Metadata["_access_count"])
-		if _, has := vd.Metadata["_last_accessed"]; has || now != c {
-			cs.Fail("VReinforce(%v) touched the unreinforced twin %s: _access_count %v -> %v, _last_accessed present=%v", ids, id, c, now, has)
+		la, has := c15Num(vd.Metadata["_last_accessed"])
+		if has != b.hasLA || la != b.la || now != b.count {
+			cs.Fail("VReinforce(%v) touched the unreinforced twin %s: _access_count %v -> %v, _last_accessed %v (present=%v) -> %v (present=%v)", ids, id, b.count, now, b.la, b.hasLA, la, has)
 		}
 	}
 	x.ctx.Count("reinforce.calls", 1)
 }
 
+// change alters one decay parameter of an existing memory through VSetMetadata (what the MCP
+// pin / unpin tools do) and moves the oracle's view along. The next search must follow.
+func (x *c15Run) change(m *c15Mem) {
+	r := x.cs.R
+	props := map[string]any{}
+	what := ""
+	switch r.Intn(4) {
+	case 0: // pin
+		if r.Chance(0.5) {
+			m.pinnedVal, m.pinnedForm = true, "bool"
+		} else {
+			m.pinnedVal, m.pinnedForm = "true", "string"
+		}
+		m.pinned = true
+		props["_pinned"] = m.pinnedVal
+		what = "pin"
+	case 1: // unpin (an explicit flag also overrides a pinned-by-default layer)
+		if r.Chance(0.5) {
+			m.pinnedVal = false
+		} else {
+			m.pinnedVal = "false"
+		}
+		m.pinned, m.pinnedForm = false, ""
+		props["_pinned"] = m.pinnedVal
+		what = "unpin"
+	case 2: // decay model override
+		m.overrideSet, m.override = true, vkit.Pick(r, []string{"exponential", "linear", "step", "ebbinghaus", "", "bogus"})
+		props["_decay_model"] = m.override
+		what = "model"
+	default: // move to another layer. Whether a memory MOVED into a pinned-by-default layer is
+		// "pinned" is not stated anywhere: such targets (and memories pinned by their layer) are left out.
+		if m.pinnedForm == "layer-default" {
+			return
+		}
+		var targets []string
+		for _, nm := range append(append([]string{}, c15LayerNames...), "unknown-layer") {
+			if lc, ok := x.cfg.layers[nm]; ok && lc.PinnedByDefault {
+				continue
+			}
+			if nm != m.layer {
+				targets = append(targets, nm)
+			}
+		}
+		if len(targets) == 0 {
+			return
+		}
+		m.layerSet, m.layerVal = true, vkit.Pick(r, targets)
+		m.layer = m.layerVal
+		props["memory_layer"] = m.layerVal
+		what = "layer"
+	}
+	x.cs.Op("VSetMetadata(%s, %s, %s)", x.idx, m.id, c15JSON(props))
+	if err := x.e.VSetMetadata(x.idx, m.id, props); err != nil {
+		x.cs.Fail("VSetMetadata(%s, %s) failed: %v", m.id, c15JSON(props), err)
+	}
+	m.changed = append(m.changed, what)
+	x.ctx.Count("changed_after_creation."+what, 1)
+}
+
 var c15LayerNames = []string{"episodic", "semantic", "procedural", "custom"}
 
 func c15HalfLifeDur(r *vkit.Rand) time.Duration {
-	switch r.Intn(3) {
-	case 0:
+	switch r.Intn(7) {
+	case 0, 1:
 		return vkit.Pick(r, []time.Duration{time.Hour, 6 * time.Hour, 72 * time.Hour, 168 * time.Hour, 720 * time.Hour, 5000 * time.Hour})
-	case 1:
+	case 2, 3:
 		return time.Duration(r.Range(1, 5000)) * time.Hour
+	case 4:
+		// the extremes a Duration can express (conversion to seconds is engine code)
+		return vkit.Pick(r, []time.Duration{1, time.Microsecond, time.Millisecond, time.Second, time.Minute, 90 * time.Minute, time.Duration(math.MaxInt64), time.Duration(r.Range(1, 3600)) * time.Second})
 	default:
 		return time.Duration(r.Range(3600, 5000*3600))*time.Second + time.Duration(r.Intn(1000))*time.Millisecond
 	}
@@ -549,9 +993,20 @@ func c15GenCfg(cs *vkit.Case) c15Cfg {
 			nm := names[r.Perm(len(names))[0]]
 			cfg.layers[nm] = hnsw.LayerConfig{DecayHalfLife: 0, PinnedByDefault: r.Chance(0.3)}
 		}
+		if r.Chance(0.12) { // a negative layer half-life
+			nm := names[r.Perm(len(names))[0]]
+			cfg.layers[nm] = hnsw.LayerConfig{DecayHalfLife: hnsw.Duration(-c15HalfLifeDur(r)), PinnedByDefault: r.Chance(0.2)}
+		}
 		if r.Chance(0.15) {
 			cfg.globalH = 0 // only reachable by memories whose layer is not in the table
 		}
+	}
+	if r.Chance(0.06) {
+		// global half-life <= 0 ("defaults to a standard value"), with or without a layer table
+		cfg.globalH = vkit.Pick(r, []time.Duration{0, -1, -time.Hour, time.Duration(math.MinInt64)})
+	}
+	if r.Chance(0.5) {
+		cfg.lang = "english"
 	}
 	return cfg
 }
@@ -559,9 +1014,16 @@ func c15GenCfg(cs *vkit.Case) c15Cfg {
 // c15GenMem draws one memory. kind: 0 = plain past memory (decays), 1 = pinned, 2 = random.
 func c15GenMem(ctx *vkit.Ctx, cs *vkit.Case, cfg c15Cfg, id string, dim int, kind int, forTwin bool) *c15Mem {
 	r := cs.R
-	m := &c15Mem{id: id, vec: c15Vec(r, dim), twin: -1, countForm: "none"}
+	jsonNum := !ctx.IsKnown("D-C15-5") // known D-C15-5: json.Number-typed values are not read as numbers
+	m := &c15Mem{id: id, vec: c15Vec(r, dim), twin: -1, cousin: -1, countForm: "none", entry: "add"}
+	m.grp = vkit.Pick(r, []string{"a", "a", "b"})
+	m.content = strings.Join([]string{vkit.Pick(r, c15Words), vkit.Pick(r, c15Words), vkit.Pick(r, c15Words)}[:r.Range(1, 3)], " ")
 	// layer
-	switch r.Intn(5) {
+	lk := r.Intn(5)
+	if cfg.globalH <= 0 && len(cfg.layers) > 0 && r.Chance(0.5) {
+		lk = 4 // a layer outside the table: the global half-life applies
+	}
+	switch lk {
 	case 0, 1: // absent -> "episodic"
 	case 2:
 		m.layerSet, m.layerVal = true, vkit.Pick(r, c15LayerNames)
@@ -582,7 +1044,7 @@ func c15GenMem(ctx *vkit.Ctx, cs *vkit.Case, cfg c15Cfg, id string, dim int, kin
 		m.layer = m.layerVal
 	}
 	h, hkind := cfg.halfLife(m.layer)
-	if hkind == "layer0" || hkind == "global-default" {
+	if hkind != "layer" && hkind != "global" {
 		h = float64(r.Range(1, 5000)) * 3600
 	}
 	// pinned flag
@@ -607,8 +1069,8 @@ func c15GenMem(ctx *vkit.Ctx, cs *vkit.Case, cfg c15Cfg, id string, dim int, kin
 			m.pinned, m.pinnedForm = true, "layer-default"
 		}
 	}
-	// timestamp (unix seconds). Past ages are a multiple of the applicable half-life that
-	// stays >= 10% away from the half-life itself, i.e. >= 6 min away from any threshold.
+	// timestamp (unix seconds). Past ages are a multiple of the applicable half-life, at least
+	// 400 s (a float32 stamp is known to +-128 s only), and never reach back before 1970 (a stamp <= 0 means "no timestamp" to the product).
 	now := time.Now().Unix()
 	tk := r.Intn(10)
 	if kind == 0 {
@@ -621,34 +1083,60 @@ func c15GenMem(ctx *vkit.Ctx, cs *vkit.Case, cfg c15Cfg, id string, dim int, kin
 	case tk <= 5:
 		ratio := vkit.Pick(r, []float64{0.05 + 0.85*r.Float64(), 0.05 + 0.85*r.Float64(), 1.1 + 1.9*r.Float64(), 5 + 15*r.Float64()})
 		age := math.Floor(ratio * h)
-		c := float64(now) - age
+		if age < 400 {
+			age = float64(400 + r.Intn(3600))
+		}
 		m.tsClass = "past"
-		switch r.Intn(6) {
-		case 0:
-			m.createdVal = int(c)
-		case 1:
-			m.createdVal = int64(c)
-		case 2:
-			c += 0.5
-			m.createdVal = c
-		default:
-			m.createdVal = c
+		if age > float64(now-1) || (kind == 2 && r.Chance(0.04)) {
+			// "huge" ages: a stamp from the first days of 1970
+			age = float64(now) - float64(vkit.Pick(r, []int64{1, 1000, 1000000}))
+			m.tsClass = "ancient"
 		}
-		m.createdLo, m.createdHi = c, c
-	case tk <= 7:
-		c := float64(now) + math.Floor((1+999*r.Float64())*3600)
-		m.tsClass = "future"
-		if r.Chance(0.2) {
-			m.createdVal = int64(c)
+		c := now - int64(age)
+		if r.Chance(0.15) {
+			m.createdVal, m.createdForm = float64(c)+0.5, "float64-fractional"
+			m.createdLo, m.createdHi = float64(c)+0.5, float64(c)+0.5
 		} else {
-			m.createdVal = c
+			val, den, slack, form := c15NumForm(r, c, true, jsonNum)
+			m.createdVal, m.createdForm = val, form
+			m.createdLo, m.createdHi = den-slack, den+slack
 		}
-		m.createdLo, m.createdHi = c, c
+	case tk <= 7:
+		c := now + int64(math.Floor((1+999*r.Float64())*3600))
+		m.tsClass = "future"
+		val, den, _, form := c15NumForm(r, c, false, jsonNum)
+		m.createdVal, m.createdForm = val, form
+		m.createdLo, m.createdHi = den, den
 	case tk == 8:
 		c := float64(now)
-		m.tsClass, m.createdVal, m.createdLo, m.createdHi = "now", c, c, c
+		m.tsClass, m.createdVal, m.createdLo, m.createdHi, m.createdForm = "now", c, c, c, "float64"
 	default:
-		m.tsClass = "injected" // bracket filled in by the VAdd call
+		m.tsClass, m.createdForm = "injected", "absent" // bracket filled in by the add call
+	}
+	// a last access recorded earlier (what a reinforcement leaves behind; restored / imported
+	// history): the reference time is the newer of the two stamps
+	if (m.tsClass == "past" || m.tsClass == "ancient") && r.Chance(0.3) {
+		var la int64
+		age := now - int64(m.createdHi)
+		switch lkind := r.Intn(5); {
+		case lkind <= 1 && age > 600: // between creation and now: a real, decaying age
+			la = int64(m.createdHi) + 2 + int64(r.Float64()*float64(age-300))
+			m.laKind = "between"
+		case lkind == 4 && !forTwin:
+			// clock skew: a last access "in the future" (not for twins: VReinforce would move the
+			// lead's reference time BACK to now, below its unreinforced twin's)
+			la = now + int64(r.Range(3600, 1000000))
+			m.laKind = "future"
+		default: // older than the creation stamp: the creation stamp stays the reference
+			la = int64(m.createdLo) - int64(r.Range(2, 1000000))
+			m.laKind = "older"
+		}
+		if la >= 1 {
+			val, den, _, _ := c15NumForm(r, la, false, jsonNum)
+			m.laVal, m.lastAccessed = val, den
+		} else {
+			m.laKind = ""
+		}
 	}
 	// per-memory model override
 	switch r.Intn(6) {
@@ -658,28 +1146,53 @@ func c15GenMem(ctx *vkit.Ctx, cs *vkit.Case, cfg c15Cfg, id string, dim int, kin
 		m.overrideSet, m.override = true, vkit.Pick(r, []string{"", "bogus", "STEP", "linear "})
 	}
 	// access count
-	switch r.Intn(5) {
+	switch r.Intn(6) {
 	case 0:
 		c := float64(r.Range(0, 40))
-		m.countVal, m.count, m.countForm = c, c, "float"
+		m.countVal, m.count, m.countForm = c, c, "float64"
 	case 1:
 		// Known D-C15-3: an int-typed count is ignored by the Ebbinghaus model. The exact trigger
 		// (int-typed count on a memory whose effective model is ebbinghaus) is avoided; int-typed
 		// counts under every other model stay (VReinforce must add exactly 1 to them too).
 		if !(ctx.IsKnown("D-C15-3") && c15ModelClass(c15EffModel(cfg, m)) == "ebbinghaus") {
-			c := r.Range(0, 40)
-			if r.Chance(0.5) {
-				m.countVal = c
-			} else {
-				m.countVal = int64(c)
+			c := int64(r.Range(0, 40))
+			if r.Chance(0.15) {
+				c = int64(vkit.Pick(r, []int{1000, 1000000}))
 			}
-			m.count, m.countForm = float64(c), "int"
+			val, den, _, form := c15NumForm(r, c, false, jsonNum)
+			m.countVal, m.count, m.countForm = val, den, form
 		} else {
 			c := float64(r.Range(1, 1000))
-			m.countVal, m.count, m.countForm = c, c, "float"
+			m.countVal, m.count, m.countForm = c, c, "float64"
+		}
+	case 2:
+		if r.Chance(0.4) {
+			// fractional / negative counts (JSON can carry them)
+			c := vkit.Pick(r, []float64{2.7, 0.5, 11.25, -1, -7, -0.5})
+			m.countVal, m.count, m.countForm = c, c, "float64-odd"
 		}
 	}
+	// entry point (VImport only in every other case: its commit starts a background refinement of
+	// the graph, during which the hybrid pair law is not judged)
+	switch r.Intn(10) {
+	case 0, 1, 2:
+		m.entry = "batch"
+	case 3, 4:
+		m.entry = "import"
+		if cs.Idx%2 == 1 {
+			m.entry = "batch"
+		}
+	}
+	c15GuardEntry(ctx, m)
 	return m
+}
+
+// c15GuardEntry: known D-C15-4 — VAddBatch / VImport do not apply the pinned-by-default rule of a
+// layer. While that finding is listed as known, exactly those memories go through VAdd.
+func c15GuardEntry(ctx *vkit.Ctx, m *c15Mem) {
+	if m.pinnedForm == "layer-default" && m.entry != "add" && ctx.IsKnown("D-C15-4") {
+		m.entry = "add"
+	}
 }
 
 func (x *c15Run) add(m *c15Mem) {
@@ -694,13 +1207,54 @@ func (x *c15Run) add(m *c15Mem) {
 	if m.tsClass == "injected" {
 		m.createdLo, m.createdHi = float64(t0), float64(t1)
 	}
+	x.ctx.Count("entry.VAdd", 1)
+}
+
+// addMany sends a group of memories through VAddBatch or VImport (+ VImportCommit).
+func (x *c15Run) addMany(api string, ms []*c15Mem) {
+	if len(ms) == 0 {
+		return
+	}
+	items := make([]types.BatchObject, len(ms))
+	desc := make([]string, len(ms))
+	for i, m := range ms {
+		md := m.meta()
+		items[i] = types.BatchObject{Id: m.id, Vector: append([]float32(nil), m.vec...), Metadata: md}
+		desc[i] = fmt.Sprintf("%s %v %s", m.id, m.vec, c15JSON(md))
+	}
+	x.cs.Op("%s(%s, [%s])", api, x.idx, strings.Join(desc, "; "))
+	t0 := time.Now().Unix()
+	var err error
+	if api == "VAddBatch" {
+		err = x.e.VAddBatch(x.idx, items)
+	} else {
+		err = x.e.VImport(x.idx, items)
+	}
+	t1 := time.Now().Unix()
+	if err != nil {
+		x.cs.Fail("%s failed: %v", api, err)
+	}
+	for _, m := range ms {
+		if m.tsClass == "injected" {
+			m.createdLo, m.createdHi = float64(t0), float64(t1)
+		}
+	}
+	if api == "VImport" {
+		x.cs.Op("VImportCommit(%s)", x.idx)
+		if err := x.e.VImportCommit(x.idx); err != nil {
+			x.cs.Fail("VImportCommit failed: %v", err)
+		}
+		x.bgRefine = true
+	}
+	x.ctx.Count("entry."+api, int64(len(ms)))
 }
 
 func TestVerifC15Engine(t *testing.T) {
 	vkit.Run(t, "C15", func(ctx *vkit.Ctx) {
 		ctx.Assume("similarity of a result is taken from the VSearchWithScores breakdown of the same query when the fused score of VSearchGraph is decomposed (both are 1/(1+distance) of the same stored vector)")
-		ctx.Assume("a global half-life of 0 with no matching layer 'defaults to a standard value (e.g. 7 days)': only the generic laws (range, product, ordering) are demanded there")
-		ctx.Assume("past timestamps are >= 3 minutes old and >= 10% of the half-life away from it; clock brackets are 0-2 s")
+		ctx.Assume("a global half-life <= 0 with no matching layer 'defaults to a standard value (e.g. 7 days)', and a negative layer half-life has no stated meaning: only the generic laws (range, product, ordering, factor 1 for non-past stamps, monotone in age inside one call, step in {0,1}) are demanded there")
+		ctx.Assume("past timestamps are >= 400 s old and later than 1970-01-01; clock brackets are the samples taken around each call")
+		ctx.Assume("hybrid search: the relevance before decay is not modelled; two memories with the same vector and text are taken to have the same relevance when the vector-only call with the same (query, k, ef) returned both, the call has no filter and no background refinement is running")
 		c15Probes(ctx)
 
 		ctx.Group("engine", ctx.N(800, 24000), func(cs *vkit.Case) {
@@ -714,8 +1268,8 @@ func TestVerifC15Engine(t *testing.T) {
 			if metric == distance.Cosine {
 				prec = distance.Float32
 			}
-			cs.Op("VCreate(%s, %s, %s, memory=%s)", x.idx, metric, prec, x.cfg)
-			if err := x.e.VCreate(x.idx, metric, 8, 100, prec, "", nil, nil, x.cfg.memCfg()); err != nil {
+			cs.Op("VCreate(%s, %s, %s, text=%q, memory=%s)", x.idx, metric, prec, x.cfg.lang, x.cfg)
+			if err := x.e.VCreate(x.idx, metric, 8, 100, prec, x.cfg.lang, nil, nil, x.cfg.memCfg()); err != nil {
 				cs.Fail("VCreate failed: %v", err)
 			}
 			dim := r.Range(2, 6)
@@ -729,18 +1283,56 @@ func TestVerifC15Engine(t *testing.T) {
 				m := c15GenMem(ctx, cs, x.cfg, fmt.Sprintf("m%d", len(x.mems)), dim, kind, wantTwin)
 				x.mems = append(x.mems, m)
 				x.byID[m.id] = m
-				if wantTwin {
+				switch {
+				case wantTwin:
 					tw := *m
 					tw.id = fmt.Sprintf("m%d", len(x.mems))
 					tw.vec = append([]float32(nil), m.vec...)
+					tw.entry = vkit.Pick(r, []string{"add", "add", "batch", "import"}) // twins may come in through different doors
+					if tw.entry == "import" && cs.Idx%2 == 1 {
+						tw.entry = "batch"
+					}
+					c15GuardEntry(ctx, &tw)
 					m.twin, m.twinLead = len(x.mems), true
 					tw.twin, tw.twinLead = len(x.mems)-1, false
 					x.mems = append(x.mems, &tw)
 					x.byID[tw.id] = &tw
+				case i >= 1 && x.cfg.lang != "" && r.Chance(0.3):
+					// a cousin: same vector and text, its own decay parameters (hybrid pair law)
+					co := c15GenMem(ctx, cs, x.cfg, fmt.Sprintf("m%d", len(x.mems)), dim, r.Intn(3), false)
+					co.vec = append([]float32(nil), m.vec...)
+					co.content, co.grp = m.content, m.grp
+					m.cousin, co.cousin = len(x.mems), len(x.mems)-1
+					x.mems = append(x.mems, co)
+					x.byID[co.id] = co
 				}
 			}
+			var batch, imp []*c15Mem
+			for _, m := range x.mems {
+				switch m.entry {
+				case "batch":
+					batch = append(batch, m)
+				case "import":
+					imp = append(imp, m)
+				}
+			}
+			batchDone, impDone := false, false
 			for _, p := range r.Perm(len(x.mems)) {
-				x.add(x.mems[p])
+				switch m := x.mems[p]; {
+				case m.entry == "batch" && !batchDone:
+					batchDone = true
+					if len(batch) > 1 && r.Chance(0.3) {
+						x.addMany("VAddBatch", batch[:1])
+						x.addMany("VAddBatch", batch[1:])
+					} else {
+						x.addMany("VAddBatch", batch)
+					}
+				case m.entry == "import" && !impDone:
+					impDone = true
+					x.addMany("VImport", imp)
+				case m.entry == "add":
+					x.add(m)
+				}
 			}
 			cs.Attach("config", x.cfg.String())
 			defer func() {
@@ -752,8 +1344,17 @@ func TestVerifC15Engine(t *testing.T) {
 			}()
 
 			x.searchRound("fresh")
-			if r.Chance(0.5) {
+			if r.Chance(0.35) {
 				x.searchRound("fresh2")
+			}
+			// parameters changed after creation (twins stay identical: left alone)
+			if r.Chance(0.4) {
+				for c := r.Range(1, 2); c > 0; c-- {
+					if m := vkit.Pick(r, x.mems); m.twin < 0 {
+						x.change(m)
+					}
+				}
+				x.searchRound("changed")
 			}
 			// reinforcement: every twin lead plus some others, in one or several calls
 			var ids []string
@@ -775,20 +1376,55 @@ func TestVerifC15Engine(t *testing.T) {
 			x.searchRound("reinforced")
 			// compression rebuilds the index: the memory configuration (and with it every decay
 			// law) must come through
-			if metric == distance.Euclidean && prec == distance.Float32 && r.Chance(0.3) {
-				cs.Op("VCompress(%s, float16)", x.idx)
-				if err := x.e.VCompress(x.idx, distance.Float16); err != nil {
-					cs.Fail("VCompress failed: %v", err)
+			if prec == distance.Float32 && r.Chance(0.3) {
+				target := distance.Float16 // Euclidean only
+				if metric == distance.Cosine {
+					target = distance.Int8 // Cosine only
 				}
-				x.ctx.Count("compressions", 1)
+				cs.Op("VCompress(%s, %s)", x.idx, target)
+				if err := x.e.VCompress(x.idx, target); err != nil {
+					cs.Fail("VCompress(%s) failed: %v", target, err)
+				}
+				x.ctx.Count("compressions."+string(target), 1)
 				x.searchRound("compressed")
 			}
 			restarted := false
 			if r.Chance(0.2) {
+				// what is recovered: the log alone, a snapshot + log tail, a rewritten log
+				switch r.Intn(3) {
+				case 1:
+					cs.Op("SaveSnapshot")
+					if err := x.e.SaveSnapshot(); err != nil {
+						cs.Fail("SaveSnapshot failed: %v", err)
+					}
+					x.ctx.Count("restarts.after_snapshot", 1)
+				case 2:
+					cs.Op("RewriteAOF")
+					if err := x.e.RewriteAOF(); err != nil {
+						cs.Fail("RewriteAOF failed: %v", err)
+					}
+					x.ctx.Count("restarts.after_rewrite", 1)
+				}
 				x.close()
 				x.open()
 				restarted = true
 				x.ctx.Count("restarts", 1)
+				// the reinforcement (count, reference time) is what it was
+				for _, m := range x.mems {
+					if m.reinforced == 0 {
+						continue
+					}
+					vd, err := x.e.VGet(x.idx, m.id)
+					if err != nil {
+						cs.Fail("VGet(%s) after restart failed: %v", m.id, err)
+					}
+					c, okc := c15Num(vd.Metadata["_access_count"])
+					la, okl := c15Num(vd.Metadata["_last_accessed"])
+					if !okc || !okl || c != m.count || la != m.lastAccessed {
+						cs.Fail("after restart: reinforced memory %s has _access_count=%v _last_accessed=%v, want %v and %v; %s", m.id, vd.Metadata["_access_count"], vd.Metadata["_last_accessed"], m.count, m.lastAccessed, m.describe())
+					}
+					x.ctx.Count("restarts.reinforced_state_checked", 1)
+				}
 				x.searchRound("restarted")
 			}
 			if r.Chance(0.4) {
@@ -853,17 +1489,18 @@ func c15Probes(ctx *vkit.Ctx) {
 		e.VAdd("p", "pinS", vec, map[string]any{"_created_at": old, "_pinned": "true"})
 		e.VAdd("p", "reinf", vec, map[string]any{"_created_at": old})
 		cs.Op("VReinforce(reinf)")
+		r0 := time.Now().Unix() // VReinforce stamps the memory with a clock value >= r0
 		if err := e.VReinforce("p", []string{"reinf"}); err != nil {
 			return "VReinforce failed: " + err.Error()
 		}
 		cs.Op("VSearchWithScores")
-		s0 := time.Now().Unix()
 		res, err := e.VSearchWithScores("p", vec, 10)
 		s1 := time.Now().Unix()
 		if err != nil {
 			return "VSearchWithScores failed: " + err.Error()
 		}
-		reinfFloor := math.Exp2(-float64(s1-s0+3) / 3600)
+		// the reinforcement is at most s1-r0 seconds old when the search reads the clock
+		reinfFloor := math.Exp2(-float64(s1-r0+1) / 3600)
 		var bad []string
 		seen := map[string]float64{}
 		for _, it := range res {
@@ -960,5 +1597,104 @@ func c15Probes(ctx *vkit.Ctx) {
 			return ""
 		}
 		return fmt.Sprintf("ebbinghaus ignores an int-typed _access_count: 9 accesses stored as int -> decay_factor %v, stored as float64 -> %v, no count -> %v (want [%v,%v] for 9 accesses); VSearchGraph scores i=%v f=%v z=%v (ops.go:1256 and ops.go:1445 assert .(float64) only, while VReinforce and _created_at accept int/int64)", f["i"], f["f"], f["z"], lo, hi, g["i"], g["f"], g["z"])
+	})
+
+	// D-C15-4: a memory of a pinned-by-default layer is pinned ("PinnedByDefault automatically
+	// sets _pinned=true for memories in this layer", config.go) only when it enters through VAdd;
+	// VAddBatch and VImport (HTTP batch / import) skip the layer defaults, so the same memory decays.
+	ctx.Probe("D-C15-4", func(cs *vkit.Case) string {
+		mc := &hnsw.MemoryConfig{Enabled: true, DecayModel: hnsw.DecayExponential, DecayHalfLife: hnsw.Duration(time.Hour), Layers: map[string]hnsw.LayerConfig{
+			"procedural": {DecayHalfLife: hnsw.Duration(time.Hour), PinnedByDefault: true},
+		}}
+		e := c15ProbeEngine(cs, mc)
+		defer e.Close()
+		old := float64(time.Now().Unix() - 2*3600)
+		vec := []float32{1, 0}
+		md := func() map[string]any { return map[string]any{"_created_at": old, "memory_layer": "procedural"} }
+		cs.Op("layer procedural: half-life 1h, pinned_by_default; the same 2-hour-old memory through VAdd / VAddBatch / VImport")
+		if err := e.VAdd("p", "add", vec, md()); err != nil {
+			return "VAdd failed: " + err.Error()
+		}
+		if err := e.VAddBatch("p", []types.BatchObject{{Id: "batch", Vector: vec, Metadata: md()}}); err != nil {
+			return "VAddBatch failed: " + err.Error()
+		}
+		if err := e.VImport("p", []types.BatchObject{{Id: "import", Vector: vec, Metadata: md()}}); err != nil {
+			return "VImport failed: " + err.Error()
+		}
+		if err := e.VImportCommit("p"); err != nil {
+			return "VImportCommit failed: " + err.Error()
+		}
+		res, err := e.VSearchWithScores("p", vec, 10)
+		if err != nil {
+			return "VSearchWithScores failed: " + err.Error()
+		}
+		f := map[string]float64{}
+		for _, it := range res {
+			f[it.ID] = it.Breakdown.DecayFactor
+		}
+		gres, _ := e.VSearchGraph("p", vec, 10, "", "", 100, 1.0, nil, false, nil)
+		g := map[string]float64{}
+		for _, it := range gres {
+			g[it.ID] = it.Score
+		}
+		var bad []string
+		for _, id := range []string{"add", "batch", "import"} {
+			if v, ok := f[id]; !ok || v != 1 {
+				bad = append(bad, fmt.Sprintf("%s decay_factor=%v", id, v))
+			}
+		}
+		if len(bad) == 0 {
+			return ""
+		}
+		return fmt.Sprintf("a memory of a pinned-by-default layer decays when it enters through VAddBatch / VImport: want decay_factor 1 for all three, got %s (VAdd: %v); VSearchGraph scores add=%v batch=%v import=%v (VAdd applies the layer defaults, ops.go:417-443; VAddBatch ops.go:1686-1698 and VImport ops.go:1856-1866 only stamp _created_at)", strings.Join(bad, ", "), f["add"], g["add"], g["batch"], g["import"])
+	})
+
+	// D-C15-5: a json.Number-typed _created_at / _last_accessed / _access_count (what a Go caller gets
+	// from a json.Decoder with UseNumber) is not read as a number: the memory does not decay until
+	// a restart turns the value into a float64, and VReinforce resets its access count to 1.
+	ctx.Probe("D-C15-5", func(cs *vkit.Case) string {
+		e := c15ProbeEngine(cs, &hnsw.MemoryConfig{Enabled: true, DecayModel: hnsw.DecayExponential, DecayHalfLife: hnsw.Duration(time.Hour)})
+		defer e.Close()
+		old := time.Now().Unix() - 2*3600
+		vec := []float32{1, 0}
+		cs.Op("VAdd f (_created_at float64, _access_count float64(7)), j (the same numbers as json.Number); 2 h old, half-life 1 h")
+		e.VAdd("p", "f", vec, map[string]any{"_created_at": float64(old), "_access_count": float64(7)})
+		e.VAdd("p", "j", vec, map[string]any{"_created_at": json.Number(fmt.Sprint(old)), "_access_count": json.Number("7")})
+		s0 := time.Now().Unix()
+		res, err := e.VSearchWithScores("p", vec, 10)
+		s1 := time.Now().Unix()
+		if err != nil {
+			return "VSearchWithScores failed: " + err.Error()
+		}
+		lo := c15Ref("exponential", float64(s1-old), 3600, 0)
+		hi := c15Ref("exponential", float64(s0-old), 3600, 0)
+		f := map[string]float64{}
+		for _, it := range res {
+			f[it.ID] = it.Breakdown.DecayFactor
+		}
+		gres, _ := e.VSearchGraph("p", vec, 10, "", "", 100, 1.0, nil, false, nil)
+		g := map[string]float64{}
+		for _, it := range gres {
+			g[it.ID] = it.Score
+		}
+		var bad []string
+		if !c15Within(f["j"], lo, hi) {
+			bad = append(bad, fmt.Sprintf("2-hour-old memory with a json.Number _created_at: decay_factor %v (float64 twin: %v), want [%v,%v]; VSearchGraph scores j=%v f=%v", f["j"], f["f"], lo, hi, g["j"], g["f"]))
+		}
+		cs.Op("VReinforce(j)")
+		if err := e.VReinforce("p", []string{"j"}); err != nil {
+			return "VReinforce failed: " + err.Error()
+		}
+		vd, err := e.VGet("p", "j")
+		if err != nil {
+			return "VGet failed: " + err.Error()
+		}
+		if c, ok := c15Num(vd.Metadata["_access_count"]); !ok || c != 8 {
+			bad = append(bad, fmt.Sprintf("VReinforce on _access_count json.Number(7) -> %v, want 8", vd.Metadata["_access_count"]))
+		}
+		if len(bad) == 0 {
+			return ""
+		}
+		return "json.Number metadata values are not read as numbers (engine toFloat64 utils.go:75 and the switch in VSearchWithScores know float64/int/int64 only; core.AddMetadata normalises every other Go number type to float64 but not json.Number): " + strings.Join(bad, "; ")
 	})
 }
